@@ -544,6 +544,47 @@ def wiring(ctx, M, fr, run):
     ok = ok_f and ok_x and aux and pair and ok_s and ok_t
     ctx.decide(rule, bool(ok), fr, None, construct=construct, detail="; ".join(facts),
                bad_detail="find_root does not hand (user function, guess, solver of its own arguments, y/g(1), has_aux=True) to custom_root: " + "; ".join(facts))
+    returned_root(ctx, M, fr)
+
+
+def returned_root(ctx, M, fr):
+    """Whatever find_root does to the value custom_root returns is differentiated by JAX in the ordinary way.  The derivative of the returned
+    root is the implicit-function-theorem value only if the returned root IS that value with derivative 1 -- at an interior root and at a root
+    that sits on a bracket end (both admissible)."""
+    rule = "O7/T5-custom-root-wiring"
+    construct = "returned-root-is-the-custom_root-result"
+    vs = []
+    for label, atom, env in (("a root strictly inside the bracket", "ROOTi", dict(BASE, ROOTi=F(3, 4))),
+                             ("a root on the bracket end bracket[0]", "b0", dict(BASE)),
+                             ("a root on the bracket end bracket[1]", "b1", dict(BASE)),
+                             ("a root on the upper end of a reversed bracket", "b0", dict(BASE, b0=F(2), b1=F(0)))):
+        try:
+            r = M.outer_probe(env, atom)
+        except EVAL_ERRORS as ex:
+            vs.append((None, f"{label}: what find_root does to the result of custom_root cannot be interpreted ({ex})"))
+            continue
+        if not isinstance(r, Dual):
+            vs.append((None, f"{label}: find_root does not return a scalar root"))
+            continue
+        same_v = _A.equal(r.a, _A.atom(atom))
+        same_t = _A.equal(r.b, _A.atom("dROOT"))
+        if same_v and same_t:
+            vs.append((True, f"{label}: returned unchanged"))
+        elif same_v:
+            vs.append((False, f"for {label} find_root returns the root found, but with tangent `{_show(Dual(r.b), 60)}` instead of dROOT (post-processing outside custom_root, e.g. a clip / min / max that ties "
+                              f"with the bound, halves the derivative), so derivatives of the returned root are not the implicit-function-theorem values"))
+        else:
+            I0 = M.interp(env)
+            neq = not _eqv(I0, Dual(r.a), Dual(_A.atom(atom)))
+            vs.append((False if neq else None, f"for {label} find_root returns `{_show(Dual(r.a), 60)}` instead of the root custom_root found"))
+    bad = [d for ok, d in vs if ok is False]
+    und = [d for ok, d in vs if ok is None]
+    if bad:
+        ctx.refuted(rule, fr, None, construct=construct, detail=bad[0])
+    elif und:
+        ctx.undecided(rule, fr, None, construct=construct, detail=und[0])
+    else:
+        ctx.proved(rule, fr, None, construct=construct, detail="; ".join(d for ok, d in vs))
 
 
 def handed_residual(M, cr):
@@ -665,6 +706,15 @@ def variants(repo):
     chain = lambda *fs: (lambda s: _chain(s, fs))
     return [
         # ---- breaking
+        Variant("returned root clipped to the bracket outside custom_root", S,
+                sub("    return jax.lax.custom_root(f, x0, lambda F, X0: rtsafe_(F, X0, bracket, settings),\n                               lambda g, y: y/g(1.0), has_aux=True)\n", "    x, info = jax.lax.custom_root(f, x0, lambda F, X0: rtsafe_(F, X0, bracket, settings),\n                               lambda g, y: y/g(1.0), has_aux=True)\n    return np.clip(x, np.minimum(bracket[0], bracket[1]), np.maximum(bracket[0], bracket[1])), info\n"),
+                "O7/T5-custom-root-wiring"),
+        Variant("returned root rescaled outside custom_root", S,
+                sub("    return jax.lax.custom_root(f, x0, lambda F, X0: rtsafe_(F, X0, bracket, settings),\n                               lambda g, y: y/g(1.0), has_aux=True)\n", "    x, info = jax.lax.custom_root(f, x0, lambda F, X0: rtsafe_(F, X0, bracket, settings),\n                               lambda g, y: y/g(1.0), has_aux=True)\n    return 1.0000001*x, info\n"),
+                "O7/T5-custom-root-wiring"),
+        Variant("custom_root result unpacked and returned as it is", S,
+                sub("    return jax.lax.custom_root(f, x0, lambda F, X0: rtsafe_(F, X0, bracket, settings),\n                               lambda g, y: y/g(1.0), has_aux=True)\n", "    x, info = jax.lax.custom_root(f, x0, lambda F, X0: rtsafe_(F, X0, bracket, settings),\n                               lambda g, y: y/g(1.0), has_aux=True)\n    return x, info\n"),
+                None),
         Variant("settings tolerances swapped", S, sub("    return Settings(max_iters, x_tol, r_tol)", "    return Settings(max_iters, r_tol, x_tol)"), "O4/T5-settings-wiring"),
         Variant("settings fields reordered, positional factory", S, sub("['max_iters', 'x_tol', 'r_tol']", "['max_iters', 'r_tol', 'x_tol']"), "O4/T5-settings-wiring"),
         Variant("tolerances read from the wrong field", S, chain(sub("    x_tol = settings.x_tol\n", "    x_tol = settings.r_tol\n"), sub("    r_tol = settings.r_tol\n", "    r_tol = settings.x_tol\n")),
